@@ -533,6 +533,34 @@ def pair_lines(ev, texts, name, src, dst):
             texts.append((x, y))
 
 
+def dump_events(mapfile, ev, texts):
+    """Append the dump events (one per family) for a map file written by -d."""
+    pairs = {4: [], 6: []}
+    bad = {4: [], 6: []}
+    try:
+        for line in open(mapfile, encoding="utf-8").read().splitlines():
+            parts = line.split("\t")
+            fam = None
+            try:
+                a, b = D.ipaddress.IPv4Address(parts[0]), D.ipaddress.IPv4Address(parts[1])
+                fam = 4
+            except (ValueError, IndexError):
+                try:
+                    a, b = D.ipaddress.IPv6Address(parts[0]), D.ipaddress.IPv6Address(parts[1])
+                    fam = 6
+                except (ValueError, IndexError):
+                    bad[6 if ":" in line else 4].append(line[:80])
+            if fam:
+                W = 32 if fam == 4 else 128
+                pairs[fam].append([D.bits_of(int(a), W), D.bits_of(int(b), W)])
+        for fam in (4, 6):
+            ev.append({"ev": "dump", "fam": fam, "pairs": pairs[fam], "bad": bad[fam]})
+            texts.append(("dump family %d" % fam, "%d pairs, malformed lines %r" % (len(pairs[fam]), bad[fam])))
+    except OSError as e:
+        ev.append({"ev": "exc", "what": "map file: %r" % (e,)})
+        texts.append(("dump", "EXC"))
+
+
 def file_level(ck, pid, tier):
     """C03: together / separately (fresh processes) / reordered runs share one map.
     C02: main -u in a fresh process restores main -a output."""
@@ -558,6 +586,9 @@ def file_level(ck, pid, tier):
             hb += ["--preserve-prefixes", ",".join(cfg.pins)]
         files = sample_files(r)
         files["r1.cfg"] += "".join(ln + "\n" for ln in config_lines(cfg))
+        if pid == "C02" and si == 0:
+            # a one-line dump: an address lying across the 64 KiB boundary is still one address, in both directions
+            files["r3"] += " " * (65536 - 6) + "123.45.67.89 end 198.51.100.7\n"
         base = tlc.subdir("files_%s_%d" % (pid, si))
         ind = os.path.join(base, "in")
         write_tree(ind, files)
@@ -592,30 +623,29 @@ def file_level(ck, pid, tier):
             pair_lines(ev, texts, name, files[name], got[name])
         if pid == "C17":
             # the dumped map must list exactly the replacements used in the output files
-            pairs = {4: [], 6: []}
-            bad = {4: [], 6: []}
-            try:
-                for line in open(mapfile, encoding="utf-8").read().splitlines():
-                    parts = line.split("\t")
-                    fam = None
-                    try:
-                        a, b = D.ipaddress.IPv4Address(parts[0]), D.ipaddress.IPv4Address(parts[1])
-                        fam = 4
-                    except (ValueError, IndexError):
-                        try:
-                            a, b = D.ipaddress.IPv6Address(parts[0]), D.ipaddress.IPv6Address(parts[1])
-                            fam = 6
-                        except (ValueError, IndexError):
-                            bad[6 if ":" in line else 4].append(line[:80])
-                    if fam:
-                        W = 32 if fam == 4 else 128
-                        pairs[fam].append([D.bits_of(int(a), W), D.bits_of(int(b), W)])
-                for fam in (4, 6):
-                    ev.append({"ev": "dump", "fam": fam, "pairs": pairs[fam], "bad": bad[fam]})
-                    texts.append(("dump family %d" % fam, "%d pairs, malformed lines %r" % (len(pairs[fam]), bad[fam])))
-            except OSError as e:
-                ev.append({"ev": "exc", "what": "map file: %r" % (e,)})
-                texts.append(("dump", "EXC"))
+            dump_events(mapfile, ev, texts)
+            if si % 2 == 0:
+                # a SECOND run in the same process, same salt and options, its own map file: the second map must be
+                # complete on its own (nothing a run learned may be missing from its map because an earlier run knew it)
+                out2, map2 = os.path.join(base, "out2"), os.path.join(base, "ip2.map")
+                jf = os.path.join(base, "jobs.json")
+                hb2 = [x if x != mapfile else map2 for x in hb]
+                json.dump([["-a", "-s", salt, "-i", ind, "-o", os.path.join(base, "out1b")] + hb, ["-a", "-s", salt, "-i", ind, "-o", out2] + hb2], open(jf, "w"))
+                import subprocess
+                subprocess.run([sys.executable, "-c", "import json,sys\nfrom netconan.netconan import main\nfor a in json.load(open(sys.argv[1])): main(a)", jf],
+                               env=dict(os.environ, PYTHONPATH=common.REPO), stdout=subprocess.PIPE, stderr=subprocess.PIPE, text=True)
+                ev2 = [cfg.event(TEXT_CLAUSES)]
+                tx2 = [None]
+                got2 = read_tree(out2) if os.path.isdir(out2) else {}
+                if set(got2) != set(files):
+                    ev2.append({"ev": "exc", "what": "second run in one process: files %s" % sorted(got2)})
+                    tx2.append(("main twice", "EXC"))
+                for name in sorted(got2):
+                    if name in files:
+                        pair_lines(ev2, tx2, name, files[name], got2[name])
+                dump_events(map2, ev2, tx2)
+                traces.append(ev2)
+                meta.append({"cfg": dict(cfg.describe(), second_run_in_one_process=True), "via": "files", "lines": [t if t else ("", "") for t in tx2], "head": 0})
         if pid == "C03":
             # run 2..: every file on its own, each in a fresh process, reversed order
             for name in sorted(files, reverse=True):
